@@ -53,10 +53,26 @@ def run_c08(tier, seed):
     res = vlib.run_resumable(binary, ["--prop", "c08", "--seed", str(seed), "--cases", str(12 if tier == "quick" else 300)], nsh,
                              timeout=300 if tier == "quick" else 7200, work=work)
     counters, distinct, samples, stats = vlib.collect_runs(v, res)
+    # heap census: bytes held through operator new at quiescence after identical intervals of scripted connections (server_heap.h)
+    resh = vlib.run_resumable(binary, ["--prop", "c08h", "--seed", str(seed + 3), "--cases", str(1 if tier == "quick" else 12), "--census-n", "240" if tier == "quick" else "600"], 4,
+                              timeout=300 if tier == "quick" else 7200, work=work, tag="h")
+    ch, dh, sh, sth = vlib.collect_runs(v, resh)
+    distinct |= dh
+    stats["heap_census"] = dict(servers=int(ch.get("evaluations", 0)), counts=ch.get("counts", {}), samples=sh[:4], **sth)
+    # the same lifecycle rounds under AddressSanitizer + UBSan + LeakSanitizer: per-connection state released twice or used after its
+    # release is a report, state that becomes unreachable without being released is a leak report when the process ends
+    abin = vlib.build_harness("server", "asan")
+    aenv = dict(vlib.SAN_ENV_EXPLORE, ASAN_OPTIONS=vlib.SAN_ENV_EXPLORE["ASAN_OPTIONS"].replace("detect_leaks=0", "detect_leaks=1"))
+    resa = vlib.run_resumable(abin, ["--prop", "c08", "--seed", str(seed + 5), "--cases", str(3 if tier == "quick" else 40)], 4,
+                              timeout=400 if tier == "quick" else 7200, work=work, env=aenv, tag="a")
+    ca, da, sa, sta = vlib.collect_runs(v, resa, judge_report=lambda rep: rep["tool"] != "lsan" or rep.get("in_repo"))
+    distinct |= da
+    stats["asan_lsan_pass"] = dict(rounds=int(ca.get("evaluations", 0)), connections=int(ca.get("counts", {}).get("connections", 0)), **sta)
     v.assumptions += ["'exactly once' is decided at quiescence: all clients gone, accepted descriptors released and /proc/self/fd back at the idle baseline within a bounded, load-scaled wait",
+                      "heap census: one-off growth (hash-table buckets, vector capacity, pools) is legitimate and not judged; only growth proportional to the number of connections served, confirmed over a second window, is",
                       "accept4/close are interposed at link time to own the set of accepted descriptors; the HTTP endpoint path observes onRequest/onDisconnection only (Http::Handler::onConnection is private)"]
     return _finish(v, work, counters, distinct, samples, stats,
-                   "rounds of 1-24 concurrent scripted clients against a raw Tcp::Listener (own Tcp::Handler, spy transport exposing the peer table) or an Http::Endpoint (1 s idle time-outs): connect/close, partial request then close, full exchange, half-close then read to EOF, RST, RST with a 4 MiB response pending, silence until the idle time-out (before/after an exchange), handlers that arm timeoutAfter and answer first, keep-alive sequences, slow requests that keep the worker busy while bytes and FIN (or a half-close) arrive together, a streamed response (6 x 20000-byte flushed chunks) reset by the client in mid-stream, long-poll handlers that park the ResponseWriter with a 250 ms response time-out while the client leaves before it expires. Per-peer callback automaton, accept4/close ownership, descriptor census, peer table, service afterwards. distinct = (server kind, workers, behaviour set)")
+                   "rounds of 1-24 concurrent scripted clients against a raw Tcp::Listener (own Tcp::Handler, spy transport exposing the peer table) or an Http::Endpoint (1 s idle time-outs): connect/close, partial request then close, full exchange, half-close then read to EOF, RST, RST with a 4 MiB response pending, silence until the idle time-out (before/after an exchange), handlers that arm timeoutAfter and answer first, keep-alive sequences, slow requests that keep the worker busy while bytes and FIN (or a half-close) arrive together, a streamed response (6 x 20000-byte flushed chunks) reset by the client in mid-stream, long-poll handlers that park the ResponseWriter with a 250 ms response time-out while the client leaves before it expires. Per-peer callback automaton, accept4/close ownership, descriptor census, peer table, service afterwards; the same rounds a second time under ASan+UBSan+LeakSanitizer (double release, use after release, unreachable per-connection state); heap census: on 4 server variants (raw listener, endpoint with long / 1 s time-outs, endpoint with a small request limit) the bytes held through operator new (exact, replaced operator new/delete) are read at quiescence after each of 4(+4) identical intervals of N scripted connections (12 behaviours incl. resets with a pending 1 MiB response, refused requests, streamed responses, armed response timers, idle time-outs) - growth of >= 4 bytes per connection that continues over two windows is a violation. distinct = (server kind, workers, behaviour set)")
 
 def run_c14(tier, seed):
     v = vlib.Verdict("C14", tier, seed, level="fault_enumeration")
